@@ -1,7 +1,9 @@
 import Lean.Data.Json
 import CbiVerif.Model.CClean
+import CbiVerif.Model.CCleanCells
 import CbiVerif.Spec.CLexRef
-/-! driver ops for C05: `clex` (model + spec for one text), `clex_isspace` (the `str.isspace` table) -/
+/-! driver ops for C05: `clex` (model + spec for one text), `clex_isspace` (the `str.isspace` table),
+`cclean_cells` (the model's cells in the vocabulary of the regenerated transition table) -/
 open Lean
 namespace CbiVerif.Drv.CLex
 open CbiVerif.CClean CbiVerif.CText
@@ -62,6 +64,38 @@ def handleCLex (j : Json) : Json :=
 def handleIsSpace (_ : Json) : Json :=
   natArr ((List.range 0x110000).filter fun n => pyIsSpace (Char.ofNat n))
 
-def handlers : List (String × (Json → Json)) := [("clex", handleCLex), ("clex_isspace", handleIsSpace)]
+/-! ## `cclean_cells`: the model's table, to be diffed against the regenerated one
+
+`{"op":"cclean_cells","stacks":[[ids, top first]],"bodies":[[code points]],"codepoints":[n]}` →
+`{"classes":[[name, index]],                      -- the nine model classes and their table index
+  "step":[[[entry per model class] per blank=false,true] per stack], "newline":[entry per stack],
+  "lines":[[entry per body] per stack], "charclass":[[model class name, table index] per code point]}`
+— the functions are those of `Model/CCleanCells.lean`, the ones the table theorems are about. -/
+open CbiVerif.CClean.Regen in
+def entryJson (e : Regen.Entry) : Json := Json.arr #[Json.bool e.1, natArr e.2.1, natArr e.2.2]
+
+open CbiVerif.CClean.Regen in
+def lineEntryJson (e : Regen.LineEntry) : Json :=
+  Json.arr #[Json.bool e.1, natArr e.2.1, Json.bool e.2.2.1, Json.bool e.2.2.2.1, natArr e.2.2.2.2]
+
+def clsName (k : Cls) : String := (toString (repr k)).splitOn "." |>.getLast!
+
+open CbiVerif.CClean.Regen in
+def handleCells (j : Json) : Json :=
+  let stacks := ((j.getObjValAs? (Array (Array Nat)) "stacks").toOption.getD #[]).toList.map (·.toList)
+  let bodies := ((j.getObjValAs? (Array (Array Nat)) "bodies").toOption.getD #[]).toList.map (·.toList)
+  let cps := ((j.getObjValAs? (Array Nat) "codepoints").toOption.getD #[]).toList
+  Json.mkObj [
+    ("classes", Json.arr (allCls.map fun k => Json.arr #[Json.str (clsName k), (clsIdx k : Nat)]).toArray),
+    ("step", Json.arr (stacks.map fun st => Json.arr ([false, true].map fun b =>
+      Json.arr (allCls.map fun k => entryJson (entryOf k (step (decode st) b k))).toArray).toArray).toArray),
+    ("newline", Json.arr (stacks.map fun st => entryJson (entryOf .other (logicalNewline (decode st)))).toArray),
+    ("lines", Json.arr (stacks.map fun st => Json.arr (bodies.map fun b =>
+      lineEntryJson (lineObs (decode st) (chars b))).toArray).toArray),
+    ("charclass", Json.arr (cps.map fun n =>
+      Json.arr #[Json.str (clsName (classify (Char.ofNat n))), (clsIdx (classify (Char.ofNat n)) : Nat)]).toArray)]
+
+def handlers : List (String × (Json → Json)) :=
+  [("clex", handleCLex), ("clex_isspace", handleIsSpace), ("cclean_cells", handleCells)]
 
 end CbiVerif.Drv.CLex
